@@ -142,16 +142,25 @@ def run(tier, chk):
     qs = common.gen_scenarios(chk, wd, "C06Q_Gen", workers=2, label="qgen", cfg_text=f'SPECIFICATION Spec\nCONSTANT Tier = "{tier}"\nINVARIANT Emit\nCHECK_DEADLOCK FALSE\n')
     common.run_sim(chk, wd, qs, "C06Q_Trace", label="quinn", shards=6, runner="quinn",
                    sig_of=lambda s, t, w: "c06:quinn:" + ("panic" if "panic" in w else "pending" if "pending" in w else "calls-unaccounted"))
+    # the other real-transport families (datagrams valid and invalid through DatagramReader / DatagramSender; timeouts and closes met
+    # while the connection is being built), judged for termination only (C06P_Trace)
+    oq = common.gen_scenarios(chk, wd, "C18D_Gen", workers=2, label="dgen", cfg_text="SPECIFICATION Spec\nINVARIANT Emit\nCHECK_DEADLOCK FALSE\n")
+    oq += common.gen_scenarios(chk, wd, "C17H_Gen", workers=2, label="hgen", cfg_text="SPECIFICATION Spec\nINVARIANT Emit\nCHECK_DEADLOCK FALSE\n")
+    oq = [s for s in oq if s["fam"] != "H3DG" or s["sends"] or s["raws"]]      # (the empty datagram scenario records nothing)
+    for i, s in enumerate(oq):
+        s["id"] = f"oq-{i+1}"
+    common.run_sim(chk, wd, oq, "C06P_Trace", label="quinn2", shards=4, runner="quinn",
+                   sig_of=lambda s, t, w: f"c06:quinn:{s['fam']}:" + ("panic" if "panic" in w else "pending" if "pending" in w else "nothing-recorded"))
     if tier != "quick":
         # the scenario families of the other checks: none of them may make h3 panic or leave a call pending for ever either
         corpus.cross(chk, "C06", "C06_Trace", sig_of=lambda s, t, w: f"c06:corpus:{s.get('family')}:" + sig(s, t, w), exclude=("C06",))
     chk.exhaustive = False
-    chk.distinct_nontrivial = len(scns) + len(rnd) + len(wts) + len(qs)
+    chk.distinct_nontrivial = len(scns) + len(rnd) + len(wts) + len(qs) + len(oq)
     chk.notes["exhaustive_part"] = f"{len(scns)} fault-injection scenarios (5 base scripts x every step index x every fault x 2 configurations) are enumerated completely by TLC"
     chk.rule = ("5 base peer scripts for both roles x ONE fault (FIN, RESET, STOP_SENDING on every stream of the script; connection close with 2 codes; idle timeout) after EVERY step index x "
                 "2 configurations (TLC-enumerated), plus seeded random / grammar-mutated byte strings on request, control, QPACK, push, WebTransport and unknown streams in random chunkings "
                 "and interleavings with random endings; the C19 WebTransport scenarios (streams read through AsyncRead in fixed-size pieces); over real Quinn: 7 message prefixes x 7 endings "
-                "(FIN, RESET_STREAM, STOP_SENDING+RESET, STOP_SENDING+FIN, CONNECTION_CLOSE) x both roles x {ending at once, ending 25 ms after the last write} x the call pattern with 1 or 2 retries of the first failing call; a trace with a panic, a lost wake-up, a livelock, or a call left pending on an object that has ended is rejected")
+                "(FIN, RESET_STREAM, STOP_SENDING+RESET, STOP_SENDING+FIN, CONNECTION_CLOSE) x both roles x {ending at once, ending 25 ms after the last write} x the call pattern with 1 or 2 retries of the first failing call, plus the datagram (H3DG) and error-class (H3CLS) families judged for termination only; a trace with a panic, a lost wake-up, a livelock, or a call left pending on an object that has ended is rejected")
     chk.assumptions = ["panics are caught per poll by the executor and recorded as events", "quiescence of the deterministic executor decides 'pending forever'"]
 
 
